@@ -814,6 +814,22 @@ def check_property(pid, tier, only=None, keep=False):
         units = [u for u in units if u.get('tier', 'quick') == 'quick']
     if only:
         units = [u for u in units if u['name'] in only]
+    # seed testing: VERIF_CHANGED_FILES=<repo files touched by a change> restricts the run to the units whose
+    # verified text contains one of those files (verification is modular: a unit that sees a changed
+    # function only through its contract cannot change its verdict).  A changed header selects every unit.
+    changed = [f for f in os.environ.get('VERIF_CHANGED_FILES', '').split() if f]
+    if changed and not any(f.endswith('.h') or f.endswith('.h.in') for f in changed):
+        def sources(u):
+            txt = open(os.path.join(VERIF, u['file'])).read()
+            src = set(re.findall(r'#include "(src/[^"]+)"', txt))
+            src |= {e['file'] for e in u.get('extract', [])} | {e['file'] for e in u.get('loop_contracts', [])}
+            return src
+        sel = [u for u in units if sources(u) & set(changed)]
+        log('[%s] VERIF_CHANGED_FILES=%s: %d of %d units contain a changed file' % (pid, changed, len(sel), len(units)))
+        if not sel:
+            print('OK property=%s tier=%s no unit of this property contains a changed file (%s)' % (pid, tier, ' '.join(changed)))
+            return 0
+        units = sel
     if not units:
         print('UNDECIDED property=%s no units' % pid)
         return 2
